@@ -394,6 +394,7 @@ type LoopSpec struct {
 	Bounded    int
 	Modifies   []*Clause
 	After      []*Clause
+	Steps      []*Clause
 	Stable     []*Clause // proved on entry, ASSUMED to survive the loop (ownership arguments the verifier cannot make)
 }
 
@@ -790,6 +791,14 @@ func ParseContractFile(path string, pkg string) (*ContractFile, error) {
 					return nil, err
 				}
 				ls.After = append(ls.After, c)
+			case "step":
+				// holds whenever the loop goes round (checked on every back edge with that iteration's locals in scope;
+				// not required on entry and not assumed at the head)
+				c, err := mkClause("step", r3, l.line)
+				if err != nil {
+					return nil, err
+				}
+				ls.Steps = append(ls.Steps, c)
 			case "unroll":
 				fmt.Sscanf(r3, "%d", &ls.Unroll)
 			case "bounded":
